@@ -329,7 +329,9 @@ def run(ctx):
         "the arena of MutableTrie, Arc/RwLock links and CachedRef::{Disk,Memory,Cached} are tied to it by the "
         "differential correspondence (hash, collected bytes, contents, store / serialised / migrated bytes) only",
         "serialize/deserialize: the per-record codec is proved; the breadth-first tree round trip is checked by "
-        "running the model's deserialiser on every serialised state of the run (PARTIAL)",
+        "running the model's deserialiser on every serialised state of the run (PARTIAL); store_update is proved for "
+        "states consistent with the store, that freeze after modifications of a stored state is consistent again is "
+        "tied by comparing the whole store byte for byte (PARTIAL)",
         "backing store = in-memory Vec<u8> (BackingStoreStore for Vec<u8>, Loader<&[u8]>); file/OS behaviour, "
         "the FFI store/load callbacks and concurrent use are out of scope",
         "the `slab` crate is replaced by a functional shim with the same LIFO key reuse",
@@ -356,7 +358,7 @@ def run(ctx):
         replay_file(ctx, binp, runner)
         return
     ncorp = corpus_replay(ctx, binp, runner)
-    total = 2500 if ctx.quick else 60000
+    total = 2500 if ctx.quick else 30000
     chunk = 2500 if ctx.quick else 10000
     agg = {}
     done = 0
@@ -395,6 +397,12 @@ def run(ctx):
         if not (0 < q.get("one_key_collected", 0) <= 120) or not q.get("hash_changed"):
             ctx.violation({"case": "thaw; insert abc:=09; freeze with SizeCollector (expected: only the path to abc)",
                            "observed": q}, "modifying one key collects %s bytes" % q.get("one_key_collected"))
+    a = obs.get("api")
+    if a is not None and (a.get("panic") or not a.get("rollback_invisible_and_hash_canonical")
+                          or a.get("refreeze_collected") != 0 or not a.get("refreeze_same_hash")):
+        ctx.violation({"case": "MutableState API: thaw; get_inner; insert zz; make_fresh_generation (insert, delete; dropped); "
+                               "freeze with SizeCollector; compare with from_iterator of the same contents; thaw; freeze",
+                       "observed": a}, "MutableState API: hash not canonical / refreeze charges: %s" % a)
     ctx.cov["rule"] = (
         "histories of 3-185 operations (40% 2-17, 40% 15-65, 20% 60-180 before the closing freeze) over an adversarial key "
         "universe per history (as C03: 1-3 bases of 0-70 bytes from {00,ff,10,01,0f,f0,11,ab,80,7f,random}; variants "
